@@ -316,11 +316,16 @@ def rejecting_bad(sc, sysm):
   flags = sc.info["old_flags"]
   cap = sc.info["capacity"]
 
+  cancel_old = sc.info.get("canceller") == "old"
+
   def f(B, st):
     bad = [crash(B, st), B.not_(B.eq(st["g.posts_by_new"], B.const(0))), B.eq(st["g.accepted"], B.const(1))]
-    for fl in flags:
+    for i, fl in enumerate(flags):
+      if cancel_old and i == 0:
+        continue
       bad.append(B.eq(st[fl + ".flag"], B.const(0)))
-    bad.append(B.and_(B.eq(st["g.rejected"], B.const(1)), B.not_(B.eq(st["tracked.len"], B.const(cap)))))
+    if not cancel_old:
+      bad.append(B.and_(B.eq(st["g.rejected"], B.const(1)), B.not_(B.eq(st["tracked.len"], B.const(cap)))))
     return B.or_(*bad)
   return f
 
@@ -345,12 +350,18 @@ def timed_quiescent_wrong(sc, sysm):
   run flag is still up, or it is not tracked"""
   n = sc.info["times"]
   pend = sc.info["pending"]
-  ex = sc.info["existing"]
+  ex = sc.info["existing"] - (1 if sc.info.get("canceller") == "old" else 0)
+
+  concurrent_cancel = bool(sc.info.get("canceller"))
 
   def f(B, st):
-    good = B.and_(B.eq(st["g.posts_by_new"], B.const(n)), B.eq(st["g.dispatched"], B.const(n + pend)), B.eq(st["new.run.flag"], B.const(0)),
-                  B.eq(st["g.accepted"], B.const(1)), B.eq(st["tracked.len"], B.const(ex + 1)), B.eq(st["D.len"], B.const(0)))
-    return B.not_(good)
+    conds = [B.eq(st["g.posts_by_new"], B.const(n)), B.eq(st["g.dispatched"], B.const(n + pend)), B.eq(st["new.run.flag"], B.const(0)),
+             B.eq(st["g.accepted"], B.const(1)), B.eq(st["D.len"], B.const(0))]
+    if not concurrent_cancel:
+      # with a third party cancelling *another* source at the same time only the new source's own behaviour is asserted: whether that
+      # cancel finds its target while the tracked list is being extended is outside every property's quantifier (DESIGN 10.3)
+      conds.append(B.eq(st["tracked.len"], B.const(ex + 1)))
+    return B.not_(B.and_(*conds))
   return f
 
 
